@@ -19,6 +19,11 @@ func (core *JApiCore) processInclude(keyword *scanner.Lexeme) *jerr.JApiError {
 	// This directive shouldn't be among core.directives, because we simply
 	// "paste" included file content inside current file.
 
+	if _, ok := core.bannedDirectives[directive.Include]; ok {
+		// Before the file name is even looked at.
+		return japiErrorForLexeme(keyword, fmt.Sprintf("%s (%s)", jerr.DirectiveNotAllowed, directive.Include.String()))
+	}
+
 	path, je := core.getIncludedFilePath(keyword)
 	if je != nil {
 		return je
